@@ -9,23 +9,23 @@ package socks5
 // every socket read / write is preceded by a deadline of now + the configured data timeout, and is not attempted
 // when the deadline could not be set
 //@ func (*socksConn).Read
-//@   props C09 C08
+//@   props C09 C08 C01 C02 C12 C14
 //@   observe time.Now, (time.Time).Add, SetReadDeadline, Read
 //@   entry row nodl: [call time.Now() as (now) ; call Add(now, c.timeout) as (dl) ; call SetReadDeadline(c.conn, dl) as (e)] when e != nil && ret1 == e && ret0 == 0 -> exit
 //@   entry row read: [call time.Now() as (now) ; call Add(now, c.timeout) as (dl) ; call SetReadDeadline(c.conn, dl) as (e) ; call Read(c.conn, p) as (n, e2)] when e == nil && ret0 == n && ret1 == e2 -> exit
 //@ func (*socksConn).Write
-//@   props C09 C08
+//@   props C09 C08 C01 C02 C12 C14
 //@   observe time.Now, (time.Time).Add, SetWriteDeadline, Write
 //@   entry row nodl:  [call time.Now() as (now) ; call Add(now, c.timeout) as (dl) ; call SetWriteDeadline(c.conn, dl) as (e)] when e != nil && ret1 == e && ret0 == 0 -> exit
 //@   entry row write: [call time.Now() as (now) ; call Add(now, c.timeout) as (dl) ; call SetWriteDeadline(c.conn, dl) as (e) ; call Write(c.conn, p) as (n, e2)] when e == nil && ret0 == n && ret1 == e2 -> exit
 
 // greeting: one Write of VER, NMETHODS, METHODS...
 //@ func NewMethodRequest
-//@   props C09 C08
+//@   props C09 C08 C01 C02 C12 C14
 //@   modifies nothing
 //@   ensures ret != nil && ret.Ver == version && ret.NMethods == len(methods) % 256 && ret.Methods == methods
 //@ func (*MethodRequest).WriteTo
-//@   props C09 C08
+//@   props C09 C08 C01 C02 C12 C14
 //@   observe Write
 //@   requires r.NMethods == len(r.Methods)
 //@   modifies nothing
@@ -37,14 +37,14 @@ package socks5
 //@   params rd, order, data
 //@   modifies asptr(data, MethodReply).Ver, asptr(data, MethodReply).Method
 //@ func (*MethodReply).ReadFrom
-//@   props C09 C08
+//@   props C09 C08 C01 C02 C12 C14
 //@   observe binary.Read
 //@   modifies r.Ver, r.Method
 //@   entry row full: [call binary.Read(in, _, bind_x) as (e)] when isptr(x, MethodReply) && asptr(x, MethodReply) == r && ret0 == 2 && ret1 == e -> exit
 
 // watchdog: cancellation closes the connection (so a blocked read/write returns at once); otherwise it ends with the probe
 //@ func (*Scanner).Scan$1
-//@   props C09 C12 C08
+//@   props C09 C12 C08 C01 C02 C14
 //@   observe Close
 //@   entry row cancel: [ctxdone ; call Close(conn)] -> exit
 //@   entry row done:   [recv done as (_, _)] -> exit
@@ -58,7 +58,7 @@ package socks5
 //@   ensures ret1 == nil ==> ret0 != nil
 //@   ensures ret1 == nil && network == "tcp" ==> isptr(ret0, net.TCPConn)
 //@ func (*Scanner).Scan
-//@   props C09 C08
+//@   props C09 C08 C01 C02 C12 C14
 //@   observe fmt.Sprintf, DialContext, SetLinger, NewMethodRequest, WriteTo, ReadFrom, Close, String
 //@   entry row dialfail: [call fmt.Sprintf("%s:%d", bind_a) as (addr) ; call DialContext(s.dialer, ctx, "tcp", addr) as (conn, e)]
 //@                          when len(a) == 2 && astype(a[0], net.IP) == r.DstIP && astype(a[1], uint16) == r.DstPort && e != nil && ret0 == nil && ret1 == e -> exit
@@ -86,15 +86,15 @@ package socks5
 // C09: constructor: default timeouts first, then the options in order; the dial option bounds the connect, the data
 // option the reads and writes
 //@ func WithDialTimeout$1
-//@   props C09 C08
+//@   props C09 C08 C01 C02 C12 C14
 //@   modifies s.dialer.Timeout
 //@   ensures s.dialer.Timeout == timeout
 //@ func WithDataTimeout$1
-//@   props C09 C08
+//@   props C09 C08 C01 C02 C12 C14
 //@   modifies s.dataTimeout
 //@   ensures s.dataTimeout == timeout
 //@ func NewScanner
-//@   props C09 C08
+//@   props C09 C08 C01 C02 C12 C14
 //@   observe o
 //@   entry row init:  [] when s.dialer != nil && fresh(s.dialer) -> loop 0
 //@   loop 0 row apply: [call o(s)] -> continue
@@ -114,17 +114,17 @@ package socks5
 // option constructors: each returns its own option closure over exactly its argument (verified here, inlined at call sites)
 //@ func WithDataTimeout
 //@   inline
-//@   props C09 C08
+//@   props C09 C08 C01 C02 C12 C14
 //@   ensures closureof(ret, "WithDataTimeout$1") && capt(ret, "timeout") == timeout
 //@ func WithDialTimeout
 //@   inline
-//@   props C09 C08
+//@   props C09 C08 C01 C02 C12 C14
 //@   ensures closureof(ret, "WithDialTimeout$1") && capt(ret, "timeout") == timeout
 
 // message lengths: the greeting is 2 + NMETHODS bytes, the reply 2
 //@ func (*MethodRequest).Len
-//@   props C09 C08
+//@   props C09 C08 C01 C02 C12 C14
 //@   ensures ret == 2 + r.NMethods && 2 <= ret && ret <= 257
 //@ func (*MethodReply).Len
-//@   props C09 C08
+//@   props C09 C08 C01 C02 C12 C14
 //@   ensures ret == 2
